@@ -24,12 +24,14 @@ type Seed struct {
 	NDict int    `json:"ndict"` // CFF seeds: number of 5-byte offset/size DICT operands (plan kind "dict"), else 0
 	// Formats lists the alternative structures (table formats, lookup types, offset sizes ...)
 	// found in the seed by the independent walker of formats.go.
+	NCnt    int      `json:"ncnt"`   // number of 16-bit count fields found by the structure walker (plan kind "count")
+	NCPair  int      `json:"ncpair"` // number of pairs of count fields of the same structure
 	Formats []string `json:"formats"`
 	Data    []byte   `json:"-"`
 }
 
 // Kinds of mutation; the order is the order of the plan (spec/Decoder.tla, Kinds).
-var Kinds = []string{"orig", "trunc", "word", "flip", "ff", "inc", "dec", "pair", "dict", "drop"}
+var Kinds = []string{"orig", "trunc", "word", "flip", "ff", "inc", "dec", "pair", "dict", "count", "drop"}
 
 // NumValues is the number of replacement value classes of kind "word".
 const NumValues = 10
@@ -106,6 +108,11 @@ func Apply(s *Seed, m Mutant) ([]byte, error) {
 		return out, nil
 	case "drop":
 		return dropTable(d, m.Idx)
+	case "count":
+		if m.Idx >= (s.NCnt+s.NCPair)*NumCountValues {
+			return nil, fmt.Errorf("count index %d out of plan", m.Idx)
+		}
+		return applyCount(s.Dec, d, m.Idx)
 	case "dict":
 		if m.Idx >= s.NDict*NumDictValues {
 			return nil, fmt.Errorf("dict index %d out of plan", m.Idx)
@@ -136,6 +143,8 @@ func Count(s *Seed, kind string) int {
 		return s.NGid * NumGidValues * NumTriggers
 	case "dict":
 		return s.NDict * NumDictValues
+	case "count":
+		return (s.NCnt + s.NCPair) * NumCountValues
 	}
 	return 0
 }
